@@ -38,7 +38,7 @@ fn init(n: usize, pattern: u8) -> Vec<(u32, u32, i64)> {
 }
 
 fn mk(kind: Kind, ctor: CtorKind, init: Vec<(u32, u32, i64)>, ops: Vec<Op>) -> Case {
-    Case { kind, hasher: HasherKind::Fixed, universe: 12, ctor: Ctor { how: ctor, init }, ops, faults: vec![], drain_every: 1, drain_bits: 0xA5A5_5A5A_A5A5_5A5A }
+    Case { kind, hasher: HasherKind::Fixed, universe: 12, ctor: Ctor { how: ctor, init }, ops, faults: vec![], drain_every: 1, drain_bits: 0xA5A5_5A5A_A5A5_5A5A, pad: 0 }
 }
 
 pub fn space_text(prop: u8) -> &'static str {
